@@ -66,9 +66,35 @@ def build_cli():
     return CLI
 
 
+class LibraryPanic(ToolError):
+    """the code under test panicked (location under /repo/src), or returned an error, on an input the harness
+    built as a valid one, outside every scope in which the harness expects and records panics: that is data about the
+    code, not a tool failure"""
+
+    def __init__(self, msg, detail):
+        ToolError.__init__(self, msg)
+        self.detail = detail
+
+
+_PANIC_RE = re.compile(r"harness panic: panicked at ([^\n]*?):(\d+):(\d+):\n([^\n]*)")
+_ERR_RE = re.compile(r"^[A-Za-z0-9 '`_\-]+: (\w+|\w+ ?[({].*[)}])$")
+
+
 def harness(args, timeout=1800, env=None, ok_codes=(0,)):
     build_harness()
     rc, out = sh([HARNESS] + [str(a) for a in args], cwd=WORK, timeout=timeout, env=env)
+    if rc == 101 and rc not in ok_codes:
+        m = _PANIC_RE.search(out)
+        if m:
+            loc, msg = m.group(1), m.group(4)
+            in_library = loc.startswith("/repo/src/")
+            # `.expect("<what the harness built>")` / `.unwrap()` on an Err returned by the library for a valid input
+            on_err = (not in_library) and ("called `Result::unwrap()` on an `Err` value" in msg or _ERR_RE.match(msg) is not None)
+            if in_library or on_err:
+                raise LibraryPanic("harness %s: %s at %s:%s: %s" % (" ".join(map(str, args[:4])),
+                                   "the library panicked" if in_library else "the library rejected a valid input", loc, m.group(2), msg),
+                                   {"command": [str(a) for a in args], "location": "%s:%s" % (loc, m.group(2)), "message": msg,
+                                    "in_library": in_library})
     if rc not in ok_codes:
         raise ToolError("harness %s failed (%d):\n%s" % (" ".join(map(str, args[:4])), rc, out[-4000:]))
     return out
@@ -341,7 +367,11 @@ def main(argv):
     try:
         run = Run(pid, tier, seed, checks.LEVELS[pid])
         run.replaying = replay is not None
-        fn(run, replay)
+        try:
+            fn(run, replay)
+        except LibraryPanic as e:
+            run.violation("harness:library-panic" if e.detail["in_library"] else "harness:valid-input-rejected",
+                          {"event": e.detail, "what": str(e)})
         rc = run.finish()
     except ToolError as e:
         log("TOOL-ERROR %s: %s" % (pid, e))
